@@ -7,12 +7,14 @@ package pmath
 //@ property C19
 //@ spec func pow2(x int) bool = x&(x-1) == 0
 //@ func fillBits
+//@   params n
 //@   mode bv
 //@   requires n >= 0
 //@   ensures ge: result >= n
 //@   ensures allones: result&(result+1) == 0
 //@   ensures tight: implies(n > 0, result>>1 < n)
 //@ func CeilToPowerOfTwo
+//@   params n
 //@   mode bv
 //@   pure
 //@   requires n >= 0
@@ -20,18 +22,22 @@ package pmath
 //@   ensures small: implies(n <= 2, result == n)
 //@   ensures ceil: implies(n > 2, result >= n && pow2(result) && result>>1 < n)
 //@ func FloorToPowerOfTwo
+//@   params n
 //@   mode bv
 //@   pure
 //@   requires n >= 0
 //@   ensures small: implies(n <= 2, result == n)
 //@   ensures floor: implies(n > 2, result <= n && pow2(result) && n>>1 < result)
 //@ func IsPowerOfTwo
+//@   params n
 //@   mode bv
 //@   ensures result == pow2(n)
 //@ func Max
+//@   params a b
 //@   mode bv
 //@   ensures result >= a && result >= b && (result == a || result == b)
 //@ func Min
+//@   params a b
 //@   mode bv
 //@   ensures result <= a && result <= b && (result == a || result == b)
 
